@@ -335,6 +335,19 @@ Theorem all_valid_is_not_last_only :
 Proof. exact all_valid_not_last_only_. Qed.
 Print Assumptions all_valid_is_not_last_only.
 
+(** identity attribute credentials: exactly [threshold] sharing-coefficient commitments *)
+Theorem identity_attributes_threshold_exact : forall ip t n sg,
+  identity_attributes_verdict ip t n sg = IAOk <-> (ip = true /\ t = n /\ sg = true).
+Proof. exact identity_attributes_threshold_exact_. Qed.
+Print Assumptions identity_attributes_threshold_exact.
+
+Theorem identity_attributes_threshold_not_only_lower_bound :
+  (forall t n, (t =? n)%N = true -> threshold_check_gt t n = true)
+  /\ (exists t n, threshold_check_gt t n = true /\ t <> n
+                  /\ identity_attributes_verdict true t n true = IAFailAr).
+Proof. exact threshold_check_gt_weaker_. Qed.
+Print Assumptions identity_attributes_threshold_not_only_lower_bound.
+
 (** * non-vacuity *)
 Local Open Scope N_scope.
 Example encoding_examples :
